@@ -45,6 +45,7 @@
 #include <OpenVolumeMesh/Core/ResourceManager.hh>
 #include <OpenVolumeMesh/Core/Iterators.hh>
 #include <OpenVolumeMesh/Config/Export.hh>
+#include <OpenVolumeMesh/Core/VerifTrace.hh>
 
 namespace OpenVolumeMesh {
 
@@ -863,6 +864,7 @@ public:
 
     /// Clear whole mesh
     virtual void clear(bool _clearProps = true) {
+        OVM_VERIF_SCOPE("clear", 0, 0, _clearProps);
 
         edges_.clear();
         faces_.clear();
@@ -905,6 +907,7 @@ public:
     }
 
     void enable_vertex_bottom_up_incidences(bool _enable = true) {
+        OVM_VERIF_SCOPE("enable_vbu", 0, 0, _enable);
 
         if(_enable && !v_bottom_up_) {
             // Vertex bottom-up incidences have to be
@@ -920,6 +923,7 @@ public:
     }
 
     void enable_edge_bottom_up_incidences(bool _enable = true) {
+        OVM_VERIF_SCOPE("enable_ebu", 0, 0, _enable);
 
         if(_enable && !e_bottom_up_) {
             // Edge bottom-up incidences have to be
@@ -944,6 +948,7 @@ public:
     }
 
     void enable_face_bottom_up_incidences(bool _enable = true) {
+        OVM_VERIF_SCOPE("enable_fbu", 0, 0, _enable);
 
         bool updateOrder = false;
         if(_enable && !f_bottom_up_) {
